@@ -265,6 +265,10 @@ def parse_into_datetime(
             if ts.tzinfo is None or ts.tzinfo.utcoffset(ts) is None:
                 # timezone-naive; assume UTC, as for strings and dates
                 ts = pytz.utc.localize(ts)
+            else:
+                # convert first, truncate afterwards: the offset may have a
+                # sub-second part, and "fold" is lost in STIXdatetime
+                ts = ts.astimezone(pytz.utc)
         else:
             # Add a time component
             ts = dt.datetime.combine(value, dt.time(0, 0, tzinfo=pytz.utc))
